@@ -32,10 +32,12 @@ type call struct {
 	gate  chan struct{} // closed by the client driver once the client script has finished
 	done  chan struct{} // closed when the handler returns
 
-	phase   atomic.Int32 // 0 running, 1 blocked in recv, 2 blocked in wait, 3 returned
-	nrecvd  atomic.Int32 // messages the handler has received so far
-	entered atomic.Bool  // the handler has started (over gRPC a call cancelled at once may never reach it)
-	parked  atomic.Bool  // the handler has reached a W or G op
+	phase    atomic.Int32  // 0 running, 1 blocked in recv, 2 blocked in wait, 3 returned
+	nrecvd   atomic.Int32  // messages the handler has received so far
+	entered  atomic.Bool   // the handler has started (over gRPC a call cancelled at once may never reach it)
+	parked   atomic.Bool   // the handler has reached a W or G op
+	watch    bool          // start a helper goroutine tied to the handler's context right before returning
+	released chan struct{} // closed by that helper when the handler's context has ended
 
 	mu    sync.Mutex
 	log   []string
@@ -206,6 +208,12 @@ func (c *call) run(io_ sio) error {
 	}
 	if c.amp > 0 {
 		deriveChildren(ctx, c.amp*1000)
+	}
+	if c.watch {
+		go func() {
+			<-ctx.Done()
+			close(c.released)
+		}()
 	}
 	return c.fin.err()
 }
